@@ -20,6 +20,8 @@
   the models of the client's code. Core-only.
 -/
 import Mtv.Handshake.Client
+import Mtv.Handshake.Reg
+import Mtv.TL.Typing
 namespace Mtv.Handshake
 open Mtv Mtv.TL Mtv.Ige
 
@@ -165,5 +167,56 @@ def exchange (c : Cfg) (s : Secrets) : Exchange :=
           | _ => ⟨st2, a0 ++ a1 ++ a2, none⟩
       | _ => ⟨st1, a0 ++ a1, none⟩
   | _ => ⟨st0, a0, none⟩
+
+/-! ### the hypotheses of the agreement theorem (C06) -/
+
+/-- the server's `server_DH_inner_data` for a client with configuration `c` -/
+def srvAnswerVal (c : Cfg) (s : Secrets) : Val :=
+  vInner (fromBE c.d.nonce) s.serverNonce s.g (intBytes s.minimal s.dhPrime)
+    (intBytes s.minimal (powMod s.g s.a s.dhPrime)) s.time
+
+/-- the client's `client_DH_inner_data` in an exchange with a server holding `s` -/
+def cliInnerVal (c : Cfg) (s : Secrets) : Val :=
+  vClientInner (fromBE c.d.nonce) s.serverNonce 0 (bigBytes (powMod s.g (fromBE c.d.b) s.dhPrime))
+
+/-- Everything `hs_agree` assumes. About the parameters: the registry resolves the ids of the
+exchange and has the shape the TL model is written for; SHA-1 returns 20 bytes; the block cipher is
+a pair of mutually inverse length-preserving maps on 16-byte blocks under every key; the two
+messages wrapped with SHA-1 + padding satisfy the cut-point assumption of C05. About the client: its
+draws have the lengths `crypto/rand` / `dry.RandomBytes` deliver; its key is an RSA-2048 public key
+(`2^2047 ≤ n < 2^2048`, `e` an `int`). About the server: `d` inverts `e` (`(m^e)^d ≡ m` below `n`);
+`server_nonce` is 128 bits; `pq` is the product of `p < 2^32` and `q < 2^32` and the factoring
+parameter returns them; `g` is a positive `int32`; `0 < dh_prime < 2^2048`; the padding source has 15
+bytes; the further fingerprints are 64-bit. And the protocol's own validity condition on `g_b`
+(`1 < g^b mod dh_prime < dh_prime − 1`), without which a conformant server must refuse.
+NO condition on the leading bytes of any value. -/
+structure ExchangeHyps (c : Cfg) (s : Secrets) : Prop where
+  reg : HsReg c.R
+  wfr : WFR c.R
+  hlen : ∀ x, (c.P.H x).length = 20
+  cipher : ∀ k, IsBlockCipher (c.P.E k) (c.P.D k)
+  nonce : c.d.nonce.length = 16
+  newNonce : c.d.newNonce.length = 32
+  rnd : 15 ≤ c.d.rnd.length
+  keyLo : 2 ^ 2047 ≤ c.key.n
+  keyHi : c.key.n < 2 ^ 2048
+  keyE : c.key.e < 2 ^ 63
+  rsa : ∀ m, m < c.key.n → (m ^ c.key.e) ^ s.d % c.key.n = m
+  serverNonce : s.serverNonce < 2 ^ 128
+  p32 : s.p < 2 ^ 32
+  q32 : s.q < 2 ^ 32
+  split : c.P.split (s.p * s.q) = some (s.p, s.q)
+  g : s.g < 2 ^ 31
+  dhPos : 0 < s.dhPrime
+  dhFit : s.dhPrime < 2 ^ 2048
+  time : s.time < 2 ^ 32
+  pad : 15 ≤ s.pad.length
+  fps : ∀ f ∈ s.extraFps, f < 2 ^ 64
+  fpsLen : s.extraFps.length + 1 < 2 ^ 32
+  gb : 1 < powMod s.g (fromBE c.d.b) s.dhPrime ∧ powMod s.g (fromBE c.d.b) s.dhPrime < s.dhPrime - 1
+  colAnswer : ∀ answer, marshal c.R (srvAnswerVal c s) = .ok answer →
+    NoLongerCollision c.P.H answer (s.pad.take (tempPadLen (20 + answer.length)))
+  colClient : ∀ msg, marshal c.R (cliInnerVal c s) = .ok msg →
+    NoLongerCollision c.P.H msg (c.d.rnd.take (tempPadLen (20 + msg.length)))
 
 end Mtv.Handshake
